@@ -195,7 +195,55 @@ def C13(run):
                         'of_py is a hand-written model of coerce_expression + constructors at the level of the emitted token tree; tied to the code by the data correspondence (tree-sitter tokenisation of the emitted text)',
                         'layout stability of constructed values (render twice, parse/rebuild stable) is covered by the data search (test)']
 
-PROPS = {'C13': C13, 'C07': C07, 'C01': C01, 'C02': C02, 'C03': C03, 'C06': C06, 'C18': C18, 'C14': C14, 'C09': C09, 'C12': C12, 'C16': C16, 'C17': C17, 'C08': C08, 'C04': C04, 'C05': C05, 'C19': C19}
+RES_ASSUME = ['three hand-written models (resolver core, chain-construction state machine, registry) each tied to the code by an in-Coq correspondence; '
+              'with-environments, inherit (src), call parameters and import hops are outside the models (search / listed findings)',
+              'Nix scoping itself is represented by the registry-free positional traversal (access_pure) inside the rec-free domain and by the reference resolver of the search']
+def C10(run):
+    run.static()
+    run.props()
+    big = run.tier == 'thorough'
+    run.suite('resolver-core', 'res_corr.py', [run.seed, 6000 if big else 1200], 'RS')
+    run.suite('chain-histories', 'chain_corr.py', [run.seed, 3200 if big else 640], 'CH')
+    oracle(run, 'resolve-search', 'resolve_search.py', ['C10', run.seed, 40000 if big else 6000], timeout=3000)
+    for f in run.findings(): oracle_finding(run, f)
+    run.assumptions += RES_ASSUME
+def C11(run):
+    run.static()
+    run.props()
+    big = run.tier == 'thorough'
+    run.suite('assign-through', 'c11_corr.py', [run.seed, 6000 if big else 1200], 'CE')
+    run.suite('resolver-core', 'res_corr.py', [run.seed, 3000 if big else 600], 'RS')
+    oracle(run, 'resolve-search', 'resolve_search.py', ['C11', run.seed, 40000 if big else 6000], timeout=3000)
+    for f in run.findings(): oracle_finding(run, f)
+    run.assumptions += RES_ASSUME + ['the case "a sibling of that name exists in a non-recursive set" is bound in neither sense of the property text: the model states what the code does, the search does not judge it']
+
+def C15(run):
+    run.static()
+    run.generate('effects2v(mutation sites reachable from rebuild)', ['-W', 'ignore', os.path.join(VERIF, 'tools', 'effects2v.py'), REPO], 'EffectsGen.v')
+    run.dyn_compile(['EffectsGen', 'EffectsProps'])
+    run.props()
+    big = run.tier == 'thorough'
+    run.suite('chain-histories', 'chain_corr.py', [run.seed, 1600 if big else 320], 'CH')
+    oracle(run, 'purity-determinism', 'purity_search.py', [run.seed, 9000 if big else 1500], timeout=3000)
+    for f in run.findings(): oracle_finding(run, f)
+    run.assumptions += ['the step from the syntactic facts of a mutation site (fresh root, refreshed container) to "the write targets an object allocated during the call" is the translator\'s and is trusted; '
+                        'it is backed on every run by object-graph snapshots before/after rebuild on every matrix cell and by the dynamic closure check (functions executed under rebuild are inside the summarised set)',
+                        'the models cannot exhibit data races inside tree-sitter\'s C code or a free-threaded interpreter: threads, hash seed and cwd are compared by the search (test)']
+
+def C20(run):
+    run.static()
+    run.props()
+    big = run.tier == 'thorough'
+    run.suite('cost', 'cost_corr.py', [run.seed, 12 if big else 10], 'CO')
+    run.suite('errors', 'errors_corr.py', [run.seed, 3000 if big else 500], 'ER')
+    oracle(run, 'robustness', 'robust_search.py', [run.seed, 20000 if big else 3000], timeout=3000)
+    for f in run.findings(): oracle_finding(run, f)
+    run.assumptions += ['cost = number of rebuild invocations, counted by wrapping every class\'s rebuild from the harness; wall-clock time is never compared',
+                        'the recurrences are per nesting family (one wrapper repeated); mixed nestings are not composed in the model',
+                        'crash freedom on arbitrary text depends on tree-sitter never producing an error-free tree outside the shapes the readers expect: sampled by the robustness search, not proved',
+                        'Python\'s recursion limit (RecursionError beyond ~200 nested parentheses) is outside the nesting bound']
+
+PROPS = {'C20': C20, 'C15': C15, 'C10': C10, 'C11': C11, 'C13': C13, 'C07': C07, 'C01': C01, 'C02': C02, 'C03': C03, 'C06': C06, 'C18': C18, 'C14': C14, 'C09': C09, 'C12': C12, 'C16': C16, 'C17': C17, 'C08': C08, 'C04': C04, 'C05': C05, 'C19': C19}
 
 def main():
     ap = argparse.ArgumentParser()
